@@ -568,6 +568,40 @@ func lemmaReencodeAPP(raw []byte) (p, q ApplicationDefined, err, err2, err3 erro
 	return p, q, nil, nil, err3
 }
 
+func lemmaReencodeREMB(raw []byte) (p, q ReceiverEstimatedMaximumBitrate, err, err2, err3 error) {
+	if err = p.Unmarshal(raw); err != nil {
+		return
+	}
+	b, err2 := p.Marshal()
+	if err2 != nil {
+		return p, q, nil, err2, nil
+	}
+	err3 = q.Unmarshal(b)
+	return p, q, nil, nil, err3
+}
+
+// RawPacket (C02, C09): the packet is the frame itself, so both directions are identities on the bytes.
+func lemmaRoundTripRaw(p RawPacket) (q RawPacket, err, err2 error) {
+	b, err := p.Marshal()
+	if err != nil {
+		return q, err, nil
+	}
+	err2 = q.Unmarshal(b)
+	return q, nil, err2
+}
+
+func lemmaReencodeRaw(raw []byte) (p, q RawPacket, err, err2, err3 error) {
+	if err = p.Unmarshal(raw); err != nil {
+		return
+	}
+	b, err2 := p.Marshal()
+	if err2 != nil {
+		return p, q, nil, err2, nil
+	}
+	err3 = q.Unmarshal(b)
+	return p, q, nil, nil, err3
+}
+
 // specPopcount16: number of set bits.
 func specPopcount16(x uint16) uint16 {
 	x = x&0x5555 + x>>1&0x5555
